@@ -10,7 +10,7 @@ the guards over truth tables of (viol, driver_scaling, equals is not None, total
 import ast
 
 from .. import astx, cfg as cfgm, boolx
-from ..core import AnalysisError
+from ..core import AnalysisError, Func
 from ..engine import rule, describe, selftest, Mutant, Twin
 
 DRIVER = 'openmdao/core/driver.py'
@@ -142,13 +142,158 @@ def fmt_state(i):
     return f"value {t[s['lower']]} lower, value {t[s['upper']]} upper"
 
 
+# ------------------------------------------------------------------------------------- helper inlining
+def clone(node, ren=None):
+    """Copy of an AST subtree without the `_parent` links; Names renamed through `ren`."""
+    if isinstance(node, list):
+        return [clone(x, ren) for x in node]
+    if not isinstance(node, ast.AST):
+        return node
+    new = type(node)()
+    for f in node._fields:
+        if hasattr(node, f):
+            setattr(new, f, clone(getattr(node, f), ren))
+    for a in node._attributes:
+        if hasattr(node, a):
+            setattr(new, a, getattr(node, a))
+    if ren and isinstance(new, ast.Name) and new.id in ren:
+        new.id = ren[new.id]
+    return new
+
+
+def _set_parents(root, parent):
+    root._parent = parent
+    for n in ast.walk(root):
+        for ch in ast.iter_child_nodes(n):
+            ch._parent = n
+
+
+def _stored_names(body):
+    out = set()
+    for st in body:
+        for n in astx.walk(st):
+            if isinstance(n, ast.Name) and isinstance(n.ctx, (ast.Store, ast.Del)):
+                out.add(n.id)
+    return out
+
+
+def _inlinable(helper):
+    """A private helper can be spliced in place of its call statement: straight parameter list, no value
+    returned, no return except as the last statement, no yield / nested scope."""
+    a = helper.node.args
+    if a.vararg or a.kwarg or a.posonlyargs or a.kwonlyargs or helper.node.decorator_list:
+        return False
+    body = astx.strip_doc(helper.node.body)
+    for i, st in enumerate(body):
+        for n in ast.walk(st):
+            if isinstance(n, (ast.Yield, ast.YieldFrom, ast.FunctionDef, ast.AsyncFunctionDef, ast.Lambda,
+                              ast.ClassDef, ast.Global, ast.Nonlocal)):
+                return False
+            if isinstance(n, ast.Return) and (n.value is not None or n is not body[-1]):
+                return False
+    return bool(body)
+
+
+def inline_helpers(repo, fn):
+    """(Func, inlined method names): `fn` with every statement `self._m(args)` inside a for loop replaced by
+    the body of Driver._m (parameters bound to the arguments), when _m is inlinable."""
+    if fn.cls is None:
+        return fn, []
+    cname = fn.qualname.rsplit('.', 1)[0]
+    todo = []
+    for st in astx.walk_stmts(fn.node.body):
+        if isinstance(st, ast.Expr) and isinstance(st.value, ast.Call) and \
+                isinstance(st.value.func, ast.Attribute) and astx.path(st.value.func.value) == 'self' and \
+                any(isinstance(a, ast.For) for a in astx.ancestors(st)) and not starred(st.value):
+            h = repo.module(fn.rel).funcs.get(f'{cname}.{st.value.func.attr}')
+            if h is not None and h is not fn and _inlinable(h):
+                todo.append((st, h))
+    if not todo:
+        return fn, []
+    taken = {n.id for n in ast.walk(fn.node) if isinstance(n, ast.Name)} | \
+        {a.arg for a in fn.node.args.args + fn.node.args.kwonlyargs}
+    repl = {}
+    for st, h in todo:
+        call = st.value
+        params = [a.arg for a in h.node.args.args]
+        if not params or params[0] != 'self':
+            continue
+        params = params[1:]
+        bound = {}
+        for i, a in enumerate(call.args):
+            if i < len(params):
+                bound[params[i]] = a
+        for k in call.keywords:
+            if k.arg in params and k.arg not in bound:
+                bound[k.arg] = k.value
+        ndef = len(h.node.args.defaults)
+        for j, pn in enumerate(params):
+            if pn not in bound:
+                k = j - (len(params) - ndef)
+                if k < 0:
+                    bound = None
+                    break
+                bound[pn] = h.node.args.defaults[k]
+        if bound is None:
+            continue
+        body = astx.strip_doc(h.node.body)
+        if isinstance(body[-1], ast.Return):
+            body = body[:-1]
+        ren, pre = {}, []
+
+        def fresh(nm):
+            cand = nm if nm not in taken else f'{h.node.name.lstrip("_")}__{nm}'
+            while cand in taken:
+                cand += '_'
+            taken.add(cand)
+            return cand
+        for pn, a in bound.items():
+            if isinstance(a, ast.Name):
+                ren[pn] = a.id
+            else:
+                ren[pn] = fresh(pn)
+                asg = ast.Assign(targets=[ast.Name(id=ren[pn], ctx=ast.Store())], value=clone(a), lineno=st.lineno,
+                                 col_offset=st.col_offset, end_lineno=st.lineno, end_col_offset=st.col_offset)
+                ast.fix_missing_locations(asg)
+                pre.append(asg)
+        for loc in sorted(_stored_names(body) - set(params)):
+            ren[loc] = fresh(loc)
+        repl[id(st)] = pre + clone(body, ren)
+    if not repl:
+        return fn, []
+
+    def rebuild(node):
+        if isinstance(node, list):
+            out = []
+            for x in node:
+                if isinstance(x, ast.AST) and id(x) in repl:
+                    out.extend(repl[id(x)])
+                else:
+                    out.append(rebuild(x))
+            return out
+        if not isinstance(node, ast.AST):
+            return node
+        new = type(node)()
+        for f in node._fields:
+            if hasattr(node, f):
+                setattr(new, f, rebuild(getattr(node, f)))
+        for a in node._attributes:
+            if hasattr(node, a):
+                setattr(new, a, getattr(node, a))
+        return new
+    node = rebuild(fn.node)
+    _set_parents(node, getattr(fn.node, '_parent', None))
+    return Func(fn.module, fn.qualname, node, fn.cls), sorted({h.node.name for _, h in todo})
+
+
 # ------------------------------------------------------------------------------------- model
 class Model:
     """Everything the rules need to know about Driver.get_constraint_values."""
 
     def __init__(self, repo):
         self.repo = repo
-        self.fn = fn = repo.func(DRIVER, ANCHOR)
+        fn, self.inlined = inline_helpers(repo, repo.func(DRIVER, ANCHOR))
+        self.fn = fn
         self.g = cfgm.build(fn)
         self.rd = cfgm.ReachingDefs(self.g)
         a = fn.node.args
@@ -1419,36 +1564,37 @@ def lsq(repo, out):
                     f'constraints: some violations are missing or duplicated in the residual vector',
                     key='lsq-partition')
     # the residual elements are the violations themselves
-    for st in astx.walk_stmts(L.fn.node.body):
-        if not (isinstance(st, ast.Return) and isinstance(st.value, ast.Call) and
-                astx.callee_attr(st.value) in ('concatenate', 'hstack') and st.value.args):
-            continue
-        a0 = st.value.args[0]
-        if not (isinstance(a0, (ast.ListComp, ast.GeneratorExp)) and len(a0.generators) == 1 and
-                isinstance(a0.generators[0].target, ast.Name) and not a0.generators[0].ifs):
-            if isinstance(a0, (ast.ListComp, ast.GeneratorExp)) and a0.generators[0].ifs:
-                out.bad(L.fn, st, 'the comprehension filters the violation arrays: rows of the residual vector no '
-                        'longer match con_row_map', key='lsq-elements')
+    rp = residual_parts(L)
+    if rp is None:
+        out.unsure(L.fn, L.fn.node, 'residual construction not recognised')
+    elif rp['filtered']:
+        out.bad(L.fn, rp['stmt'], 'violation arrays are filtered / conditionally skipped while the residual is '
+                'assembled: its rows no longer match con_row_map', key='lsq-elements')
+    else:
+        verdicts = []
+        for elt, var, st in rp['elts']:
+            e = elt
+            while True:
+                if isinstance(e, ast.Call) and isinstance(e.func, ast.Attribute) and \
+                        e.func.attr in ('ravel', 'flatten', 'reshape', 'copy') and not np_call(e, 'ravel', 'copy'):
+                    e = e.func.value
+                elif np_call(e, 'ravel', 'atleast_1d', 'asarray', 'array') and len(e.args) == 1:
+                    e = e.args[0]
+                else:
+                    break
+            if isinstance(e, ast.Name) and e.id == var:
+                verdicts.append('ok')
+            elif (isinstance(e, ast.Call) and astx.callee_attr(e) in ('abs', 'absolute', 'fabs', 'square',
+                                                                       'negative')) or \
+                    isinstance(e, (ast.UnaryOp, ast.BinOp)):
+                out.bad(L.fn, st, f'the residual is `{astx.src(elt)}`, not the signed violation: its sign/magnitude '
+                        f'no longer matches the Jacobian +d(value)/dx handed to least_squares', key='lsq-elements')
+                verdicts.append('bad')
             else:
-                out.unsure(L.fn, st, 'residual construction not recognised')
-            continue
-        var, e = a0.generators[0].target.id, a0.elt
-        while True:
-            if isinstance(e, ast.Call) and isinstance(e.func, ast.Attribute) and \
-                    e.func.attr in ('ravel', 'flatten', 'reshape', 'copy') and not np_call(e, 'ravel', 'copy'):
-                e = e.func.value
-            elif np_call(e, 'ravel', 'atleast_1d', 'asarray', 'array') and len(e.args) == 1:
-                e = e.args[0]
-            else:
-                break
-        if isinstance(e, ast.Name) and e.id == var:
-            out.ok(L.fn, st, 'residual elements are the flattened violation arrays, unmodified')
-        elif (isinstance(e, ast.Call) and astx.callee_attr(e) in ('abs', 'absolute', 'fabs', 'square', 'negative')) or \
-                isinstance(e, (ast.UnaryOp, ast.BinOp)):
-            out.bad(L.fn, st, f'the residual is `{astx.src(a0.elt)}`, not the signed violation: its sign/magnitude '
-                    f'no longer matches the Jacobian +d(value)/dx handed to least_squares', key='lsq-elements')
-        else:
-            out.unsure(L.fn, st, f'residual element `{astx.src(a0.elt)}` not recognised')
+                out.unsure(L.fn, st, f'residual element `{astx.src(elt)}` not recognised')
+                verdicts.append('unsure')
+        if verdicts and all(v == 'ok' for v in verdicts):
+            out.ok(L.fn, rp['stmt'], 'residual elements are the flattened violation arrays, unmodified')
     # freshness
     run = L.g.calling('_run_solve_nonlinear')
     setdv = L.g.calling('_set_design_vars')
@@ -1502,6 +1648,116 @@ def _flatten_concat(e):
     return [e]
 
 
+def _expand_iter(L, e, at, outer):
+    """Dict expressions iterated by `e` (an iterable of violation arrays), in order; None if unknown.
+
+    `outer` maps a loop variable to the ordered literal sequence it ranges over.
+    """
+    parts = _flatten_concat(e)
+    if parts is None:
+        return None
+    out = []
+    for p in parts:
+        if isinstance(p, ast.Call) and isinstance(p.func, ast.Attribute) and p.func.attr == 'values' and not p.args:
+            p = p.func.value
+        else:
+            return None
+        if isinstance(p, ast.Name) and p.id in outer:
+            out.extend((x, at) for x in outer[p.id])
+        else:
+            out.append((p, at))
+    return out
+
+
+def residual_parts(L):
+    """How _compute_con_viol builds the flat residual.
+
+    Returns dict(stmt, parts=[(dict expr, node)], elts=[(element expr, loop var, stmt)], filtered) for
+      return np.concatenate([f(v) for v in <iterables>])                     (comprehension form)
+      acc = []; for d in (A, B): for v in d.values(): acc.append(f(v)); return np.concatenate(acc)
+      acc = []; for v in A.values(): acc.append(..); for v in B.values(): ...   (loop forms, also .extend(gen))
+    or None when the construction is not recognised.
+    """
+    for st in astx.walk_stmts(L.fn.node.body):
+        if not (isinstance(st, ast.Return) and isinstance(st.value, ast.Call) and
+                astx.callee_attr(st.value) in ('concatenate', 'hstack') and len(st.value.args) >= 1):
+            continue
+        a0 = st.value.args[0]
+        at = L.g.nodes_of(st)[0]
+        if isinstance(a0, (ast.ListComp, ast.GeneratorExp)):
+            if len(a0.generators) != 1 or not isinstance(a0.generators[0].target, ast.Name):
+                return None
+            gen = a0.generators[0]
+            parts = _expand_iter(L, gen.iter, at, {})
+            if parts is None:
+                return None
+            return dict(stmt=st, parts=parts, elts=[(a0.elt, gen.target.id, st)], filtered=bool(gen.ifs))
+        if not isinstance(a0, ast.Name):
+            return None
+        acc = a0.id
+        defs = L.rd.defs(at, acc)
+        inits = [d for d in defs if d.kind == 'stmt' and isinstance(d.ast, ast.Assign) and
+                 isinstance(d.ast.value, ast.List) and not d.ast.value.elts]
+        if len(defs) != 1 or len(inits) != 1:
+            return None
+        parts, elts, filtered = [], [], False
+        for s2 in astx.walk_stmts(L.fn.node.body):
+            if not astx.mentions(s2, acc) or s2 is st or s2 is inits[0].ast:
+                continue
+            if isinstance(s2, (ast.For, ast.If, ast.With, ast.Try, ast.While)):
+                continue    # visited through walk_stmts
+            if not (isinstance(s2, ast.Expr) and isinstance(s2.value, ast.Call) and
+                    isinstance(s2.value.func, ast.Attribute) and astx.path(s2.value.func.value) == acc and
+                    s2.value.func.attr in ('append', 'extend') and len(s2.value.args) == 1):
+                return None     # the accumulator is used in some other way
+            if not L.g.nodes_of(s2):
+                return None
+            n2 = L.g.nodes_of(s2)[0]
+            loops, outer = [], {}
+            for anc in astx.ancestors(s2):
+                if anc is L.fn.node:
+                    break
+                if isinstance(anc, ast.For):
+                    loops.append(anc)
+                elif isinstance(anc, (ast.If, ast.While)):
+                    filtered = True
+                elif not isinstance(anc, (ast.Try, ast.With)):
+                    return None
+            loops.reverse()
+            arg = s2.value.args[0]
+            if s2.value.func.attr == 'extend':
+                if not (isinstance(arg, (ast.ListComp, ast.GeneratorExp)) and len(arg.generators) == 1 and
+                        isinstance(arg.generators[0].target, ast.Name)):
+                    return None
+                inner_iter, var, elt = arg.generators[0].iter, arg.generators[0].target.id, arg.elt
+                filtered = filtered or bool(arg.generators[0].ifs)
+                seq_loops = loops
+            else:
+                if not loops or not isinstance(loops[-1].target, ast.Name):
+                    return None
+                inner_iter, var, elt = loops[-1].iter, loops[-1].target.id, arg
+                seq_loops = loops[:-1]
+            for lp in seq_loops:
+                if not (isinstance(lp.target, ast.Name) and isinstance(lp.iter, (ast.Tuple, ast.List)) and
+                        lp.iter.elts and not lp.orelse):
+                    return None
+                outer[lp.target.id] = list(lp.iter.elts)
+            if len(seq_loops) > 1:
+                return None
+            if any(lp.orelse for lp in loops) or any(isinstance(x, (ast.Break, ast.Continue))
+                                                     for lp in loops for x in astx.walk_stmts(lp.body)):
+                filtered = True
+            got = _expand_iter(L, inner_iter, n2, outer)
+            if got is None:
+                return None
+            parts += got
+            elts.append((elt, var, s2))
+        if not parts:
+            return None
+        return dict(stmt=st, parts=parts, elts=elts, filtered=filtered)
+    return None
+
+
 @rule('C22.rows', floor=3)
 def rows(repo, out):
     """Residual rows, con_row_map and the Jacobian stack all use the order linear-then-nonlinear."""
@@ -1509,29 +1765,20 @@ def rows(repo, out):
     # (A) residual vector
     L = lsq_of(repo, 'Driver._compute_con_viol')
     recog = False
-    for st in astx.walk_stmts(L.fn.node.body):
-        if not (isinstance(st, ast.Return) and isinstance(st.value, ast.Call) and
-                astx.callee_attr(st.value) in ('concatenate', 'hstack') and st.value.args):
-            continue
-        a0 = st.value.args[0]
-        if not (isinstance(a0, (ast.ListComp, ast.GeneratorExp)) and len(a0.generators) == 1):
-            continue
-        parts = _flatten_concat(a0.generators[0].iter)
-        at = L.g.nodes_of(st)[0]
+    rp = residual_parts(L)
+    if rp is not None:
         tags = []
-        for p in parts or []:
-            if isinstance(p, ast.Call) and isinstance(p.func, ast.Attribute) and p.func.attr == 'values':
-                p = p.func.value
+        for p, at in rp['parts']:
             tag = None
             if isinstance(p, ast.Name):
                 vs = L.values(p.id, at)
                 if vs and len(vs) == 1 and isinstance(vs[0][0], ast.Call) and \
-                        astx.callee_attr(vs[0][0]) == 'get_constraint_values':
+                        astx.callee_attr(vs[0][0]) == 'get_constraint_values' and not starred(vs[0][0]):
                     lt = astx.arg(vs[0][0], 1, 'lintype')
                     tag = 'all' if lt is None else astx.const_str(lt)
             tags.append(tag)
-        if parts and None not in tags:
-            orders['residual'] = (L.fn, st, tags)
+        if tags and None not in tags:
+            orders['residual'] = (L.fn, rp['stmt'], tags)
             recog = True
     if not recog:
         out.unsure(L.fn, L.fn.node, 'residual concatenation not recognised')
@@ -1989,7 +2236,7 @@ def who(repo, out):
         return None
     for r, q in subs:
         wrong = []
-        for meth in _ANALYSED:
+        for meth in _ANALYSED + tuple(model(repo).inlined):
             f = lookup(r, q, meth)
             if f is None or (f.rel, f.qualname) != (DRIVER, f'Driver.{meth}'):
                 wrong.append((meth, f))
@@ -1999,13 +2246,13 @@ def who(repo, out):
             out.bad((r, q), cls, f'{q}.{meth} resolves to {f.ident if f else None}, not Driver.{meth}: its violation '
                     f'computation is outside the analysed code', key=f'override-{q}-{meth}')
         else:
-            out.ok((r, q), cls, f'{q} inherits ' + ', '.join(_ANALYSED))
+            out.ok((r, q), cls, f'{q} inherits ' + ', '.join(_ANALYSED + tuple(model(repo).inlined)))
     for rel in repo.shipped():
         if 'viol' not in repo.source(rel) or 'get_constraint_values' not in repo.source(rel):
             continue
         for f in repo.module(rel).funcs.values():
             for c in astx.calls(f.node):
-                if astx.callee_attr(c) == 'get_constraint_values' and astx.kwarg(c, 'viol') is not None:
+                if astx.callee_attr(c) == 'get_constraint_values' and astx.arg(c, 3, 'viol') is not None:
                     if (rel, f.qualname) == (DRIVER, 'Driver._compute_con_viol'):
                         out.ok(f, astx.stmt_of(c), 'the analysed consumer of viol=True')
                     else:
@@ -2060,6 +2307,28 @@ _RUN = ("            with RecordingDebugging(self._get_name(), self.iter_count, 
 _CHK = '        # an exception raised by the model inside _compute_con_viol was recorded there (and\n        # replaced by a zero violation vector so that scipy could return); surface it now.\n        if self._exc_info is not None:\n            self._reraise()\n\n'
 _CONCAT = ("list(lin_con_viol_dict.values()) +\n"
            "                                   list(nl_con_viol_dict.values())")
+
+_VIOL_BLOCK = "            if viol:\n                con_val = con_vec[name]\n" + _EQ_IF + _ELSE
+_HELPER_CALL = "            if viol:\n                self._val_to_viol(con_vec[name], meta)\n"
+_NEXT_DEF = "    def _get_ordered_nl_responses(self):\n"
+_RETURN_CONCAT = ("            return np.concatenate([v.ravel() for v in\n"
+                  "                                   " + _CONCAT + "])\n")
+
+
+def _helper_def(block):
+    """Source of a private helper holding the (16-space indented) violation block."""
+    body = ''.join((ln[8:] if ln.strip() else ln) for ln in block.splitlines(True))
+    return ('    def _val_to_viol(self, con_val, meta):\n        """Convert values to violations in place."""\n'
+            + body + '\n')
+
+
+def _loop_residual(seq, elt):
+    return ("            flat_viols = []\n"
+            f"            for viol_dict in {seq}:\n"
+            "                for con_viol in viol_dict.values():\n"
+            f"                    flat_viols.append({elt})\n"
+            "            return np.concatenate(flat_viols)\n")
+
 
 selftest(
     'C22',
@@ -2269,5 +2538,31 @@ selftest(
     Twin('twin-view-full-slice', _D, "                con_val = con_vec[name]\n", "                con_val = con_vec[name][:]\n"),
     Twin('twin-scale-view-before-copy', _D, _STORE, _SCALE_IF + "                con_vec[name] *= meta['total_scaler']\n" + _STORE,
          also=[(_D, _SCALE_IF + _SCALE_ST, '')]),
+    # ---- shapes accepted after the robustness round: extracted helper, hoisted flag, loop-built residual
+    Twin('twin-extracted-helper', _D, _VIOL_BLOCK, _HELPER_CALL, also=[(_D, _NEXT_DEF, _helper_def(_EQ_IF + _ELSE) + _NEXT_DEF)]),
+    Mutant('helper-prefix-F7', _D, _VIOL_BLOCK, _HELPER_CALL, 'C22.index',
+           also=[(_D, _NEXT_DEF, _helper_def(_EQ_IF + _PREFIX_F7) + _NEXT_DEF)]),
+    Mutant('helper-wrong-mask', _D, _VIOL_BLOCK, _HELPER_CALL, 'C22.pair',
+           also=[(_D, _NEXT_DEF, _helper_def(_EQ_IF + _ELSE.replace('con_val < lower)', 'con_val < upper)')) + _NEXT_DEF)]),
+    Mutant('helper-on-a-copy', _D, _VIOL_BLOCK, _HELPER_CALL.replace('con_vec[name], meta', 'con_vec[name].copy(), meta'), 'C22.result',
+           also=[(_D, _NEXT_DEF, _helper_def(_EQ_IF + _ELSE) + _NEXT_DEF)]),
+    Twin('twin-hoisted-scale-flag', _D, "        for name, meta in it:\n            if viol:\n",
+         "        scale_viol = viol and driver_scaling\n\n        for name, meta in it:\n            if viol:\n",
+         also=[(_D, _SCALE_IF, "            if scale_viol and meta['total_scaler'] is not None:\n")]),
+    Mutant('hoisted-scale-flag-or', _D, "        for name, meta in it:\n            if viol:\n",
+           "        scale_viol = viol or driver_scaling\n\n        for name, meta in it:\n            if viol:\n", 'C22.scale',
+           also=[(_D, _SCALE_IF, "            if scale_viol and meta['total_scaler'] is not None:\n")]),
+    Twin('twin-residual-append-loops', _D, _RETURN_CONCAT, _loop_residual('(lin_con_viol_dict, nl_con_viol_dict)', 'con_viol.ravel()')),
+    Twin('twin-residual-extend', _D, _RETURN_CONCAT,
+         "            flat = []\n            flat.extend(v.ravel() for v in lin_con_viol_dict.values())\n"
+         "            flat.extend(v.ravel() for v in nl_con_viol_dict.values())\n            return np.concatenate(flat)\n"),
+    Mutant('loop-residual-swapped', _D, _RETURN_CONCAT, _loop_residual('(nl_con_viol_dict, lin_con_viol_dict)', 'con_viol.ravel()'),
+           'C22.rows'),
+    Mutant('loop-residual-abs', _D, _RETURN_CONCAT, _loop_residual('(lin_con_viol_dict, nl_con_viol_dict)', 'abs(con_viol.ravel())'),
+           'C22.lsq'),
+    Mutant('loop-residual-skips', _D, _RETURN_CONCAT,
+           _loop_residual('(lin_con_viol_dict, nl_con_viol_dict)', 'con_viol.ravel()').replace(
+               "                    flat_viols.append(", "                    if con_viol.size > 1:\n                        flat_viols.append("),
+           'C22.lsq'),
     Twin('twin-select-positional', _D, "it = filter_by_meta(it, 'linear', exclude=True)", "it = filter_by_meta(it, 'linear', False, True)"),
 )
